@@ -63,6 +63,12 @@ def facts(src: str) -> dict:
     if ast.unparse(loop.iter) != "range(max_steps)" or loop.orelse:
         raise Unsupported("loop header")
     st = [ast.unparse(s) for s in loop.body]
+    # since the repair of F-C15-3 the loop asks `integ.successful()` right after the step and stops with
+    # IntegrationFailure when the solver has given up (checked BEFORE the state is compared)
+    CHECK = "if not integ.successful():\n    return Result(IntegrationFailure())"
+    checks = len(st) == 6 and st[1] == CHECK
+    if checks:
+        st = [st[0]] + st[2:]
     if len(st) != 5:
         raise Unsupported(f"loop body has {len(st)} statements")
     if not st[0].startswith("y2 = "):
@@ -96,7 +102,7 @@ def facts(src: str) -> dict:
         raise Unsupported(st[3])
     if st[4] != "t += step_size":
         raise Unsupported(st[4])
-    return {"copies": copies, "continues": starts_at_t0, "max_steps": max_steps, "step_size": step_size, "rebind": st[3], "integrate": st[0]}
+    return {"copies": copies, "checks": checks, "continues": starts_at_t0, "max_steps": max_steps, "step_size": step_size, "rebind": st[3], "integrate": st[0]}
 
 
 def render(f: dict) -> str:
@@ -107,6 +113,8 @@ def render(f: dict) -> str:
         + ("y1 holds an array of its own" if f["copies"] else "y1 is rebound to the integrator's own buffer")
         + " -/\n"
         f"def copies : Bool := {'true' if f['copies'] else 'false'}\n"
+        "/-- the loop stops with IntegrationFailure when `integ.successful()` is false after a step -/\n"
+        f"def checks : Bool := {'true' if f['checks'] else 'false'}\n"
         "/-- the search starts at the integrator's current (t0, y0) and advances it on success (no `self.reset()`) -/\n"
         f"def continues : Bool := {'true' if f['continues'] else 'false'}\n"
         f"def maxSteps : Nat := {f['max_steps']}\n"
@@ -130,7 +138,7 @@ def generate(repo: Path, outdir: Path) -> None:
     except Exception as e:
         write_if_changed(out, "-- GENERATED by translate/c15.py: UNSUPPORTED source shape\nnamespace Mxl.C15.Gen\n"
                               f"/- {str(e)[:400].replace('-/', '- /')} -/\n"
-                              "def copies : Bool := false\ndef continues : Bool := false\ndef maxSteps : Nat := 0\ndef stepSize : Nat := 0\n"
+                              "def copies : Bool := false\ndef checks : Bool := false\ndef continues : Bool := false\ndef maxSteps : Nat := 0\ndef stepSize : Nat := 0\n"
                               "end Mxl.C15.Gen\n")
         raise
     write_if_changed(out, render(f))
